@@ -174,7 +174,20 @@ func (sp Spec) Expected() Expect {
 type EClass struct {
 	Code int    `json:"code"`
 	Cond string `json:"cond,omitempty"`
+	Text string `json:"text,omitempty"` // texts of a stream error, joined with "|"
 }
+
+// customErr is an error type of the handler's own: it neither wraps nor is io.EOF.
+type customErr struct{ msg string }
+
+func (e customErr) Error() string        { return e.msg }
+func (e customErr) Is(target error) bool { return target == ErrHandler }
+
+// isEOFErr claims to be io.EOF through its Is method without being it.
+type isEOFErr struct{}
+
+func (isEOFErr) Error() string        { return "verif: an error that says it is io.EOF" }
+func (isEOFErr) Is(target error) bool { return target == io.EOF }
 
 var ErrHandler = errors.New("verif: handler error")
 
@@ -190,7 +203,17 @@ func Classify(err error) EClass {
 	}
 	var se stream.Error
 	if errors.As(err, &se) {
-		return EClass{Code: 3, Cond: se.Err}
+		var txt []string
+		for _, t := range se.Text {
+			txt = append(txt, t.Value)
+		}
+		return EClass{Code: 3, Cond: se.Err, Text: strings.Join(txt, "|")}
+	}
+	if errors.Is(err, xmpp.ErrOutputStreamClosed) {
+		return EClass{Code: 16}
+	}
+	if errors.Is(err, io.EOF) { // wraps io.EOF or claims to be it, but is not the value itself
+		return EClass{Code: 15}
 	}
 	var syn *xml.SyntaxError
 	if errors.As(err, &syn) {
@@ -225,7 +248,7 @@ func Classify(err error) EClass {
 
 func (e EClass) String() string {
 	names := []string{"nil", "EOF", "ErrUnexpectedEOF", "stream.Error", "restart", "unknown-stream-element", "procinst",
-		"comment", "directive", "chardata", "decode", "bad-state", "invalid-payload", "handler-error", "other"}
+		"comment", "directive", "chardata", "decode", "bad-state", "invalid-payload", "handler-error", "other", "wraps-EOF", "output-closed"}
 	if e.Code == 3 {
 		return "stream.Error(" + e.Cond + ")"
 	}
@@ -342,6 +365,14 @@ func RunOps(t xmlstream.TokenReadEncoder, ops []Op) error {
 				return stream.Error{Err: op.Cond}
 			case "other":
 				return ErrHandler
+			case "wrapother":
+				return fmt.Errorf("verif: while handling: %w", ErrHandler)
+			case "custom":
+				return customErr{"verif: custom handler error"}
+			case "wrapeof":
+				return fmt.Errorf("verif: reading the payload: %w", io.EOF)
+			case "iseof":
+				return isEOFErr{}
 			}
 			return nil
 		}
@@ -371,6 +402,9 @@ type Spec struct {
 	// websocket.Negotiator (no features); the script's elements carry their own
 	// name space declarations and the peer ends with <close/>.
 	WS bool `json:"ws,omitempty"`
+	// OutClosed: the local side has closed its output stream (Session.Close)
+	// before Serve runs.
+	OutClosed bool `json:"out_closed,omitempty"`
 	// requests of this session that are outstanding while the script is served
 	Pend  []PendSpec `json:"pend,omitempty"`
 	Label string     `json:"label,omitempty"`
@@ -495,6 +529,13 @@ func Run(sp Spec) Obs {
 		o.Invs[k].Ret = Classify(err)
 		return err
 	})
+	if sp.OutClosed {
+		if err := sess.Close(); err != nil {
+			o.SetupErr = "Close: " + err.Error()
+			return o
+		}
+		o.Base = c.out.Len()
+	}
 	var pw *pendWorld
 	if len(sp.Pend) > 0 {
 		pw = startPending(sess, sp.Pend)
@@ -938,8 +979,10 @@ func (b *Blob) Prog(ops []Op) {
 			case "stream":
 				b.Byte(2)
 				b.Str(op.Cond)
-			case "other":
+			case "other", "wrapother", "custom":
 				b.Byte(3)
+			case "wrapeof", "iseof":
+				b.Byte(4)
 			default:
 				b.Byte(0)
 			}
@@ -980,7 +1023,10 @@ func JidTable(script []STok) (keys []string, ok []bool, canon []string) {
 // scope (the handler's writes were accepted, output well-formed or at least
 // tokenisable, no panic/hang).
 func Encodable(sp Spec, o Obs) bool {
-	if o.Panic != "" || o.Hang || o.SetupErr != "" || o.WriteErr || o.WireBad {
+	if o.Panic != "" || o.Hang || o.SetupErr != "" || (o.WriteErr && !sp.OutClosed) || o.WireBad {
+		return false
+	}
+	if sp.OutClosed && (sp.Mode == 1 || sp.WS || len(sp.Pend) > 0) { // closed output is modelled for plain handlers only
 		return false
 	}
 	if len(o.Invs) > 255 || len(sp.Progs) > 255 || len(o.Divs) > 255 {
@@ -997,6 +1043,7 @@ func EncodeCase(sp Spec, o Obs, muxFixed bool) []byte {
 	var b Blob
 	script := sp.Tokens()
 	b.Bool(sp.WS)
+	b.Bool(sp.OutClosed)
 	b.Str(sp.NS)
 	b.Str(o.OwnBare)
 	b.Str(o.From)
